@@ -709,7 +709,7 @@ func c21Run(line string) string {
 		}
 		return fmt.Sprintf("%s:%d", t.name(v.Hash), v.Number)
 	}
-	k1 := vhEnvInt("VERIF_C21_K", 200)
+	k1 := vhEnvInt("VERIF_C21_K", 128)
 	pvb, dpc, bfc, dpv, fin := map[string]bool{}, map[string]bool{}, map[string]bool{}, map[string]bool{}, map[string]bool{}
 	for i := 0; i < k1; i++ {
 		v, err := svc.getPreVotedBlock()
@@ -725,7 +725,7 @@ func c21Run(line string) string {
 	}
 	k2 := 24
 	if len(pvb) > 1 {
-		k2 = vhEnvInt("VERIF_C21_K2", 1500)
+		k2 = vhEnvInt("VERIF_C21_K2", 1000)
 	}
 	for i := 0; i < k2; i++ {
 		s2, bs2 := newSvc(svc)
